@@ -24,7 +24,7 @@ BUDGET = {"quick": (16, 200), "thorough": (16, 5000)}
 
 def _case(mixed, safe):
     return gp.case(mixed_nrexcl=mixed, link_bias=True, bonded_only=True, max_res=6, allow_replace=False,
-                   f22_safe=safe, min_blocks=2 if mixed else 1, min_res=2,
+                   f22_safe=safe, min_blocks=2 if mixed else 1, min_res=2, explicit_links=True,
                    name_modes=("block", "random", "random") if mixed else ("homo", "block", "random"))
 
 
